@@ -193,6 +193,21 @@ def run(o, ctx, tier, seed, replay=None):
         if why and len(o.violations) < 40:
             o.violations.append({"case": c, "impl": a[:300], "why": why})
     o.extra["known_class_user_te_without_chunked_cases"] = known
+    # a body source that is not ready at some read (WouldBlock / TimedOut / Interrupted / another error, once, nothing handed over):
+    # the printer may give up with an error — but if it reports success, what it put on the wire is still exactly one message
+    if replay is None:
+        r = rng_for(seed, "print-rerr")
+        base = [l for l in lines if (" entry=reader " in l or " entry=request " in l) and " accept=" not in l and " pre=" not in l]
+        rl = [l + " rerr=%s:%d" % (r.choice(["wouldblock", "timedout", "interrupted", "other"]), r.choice([0, 0, 1, 2]))
+              for l in r.sample(base, min(len(base), 300 if t == "quick" else 6000))]
+        for c, a in zip(rl, C.run_sharded(ctx["kimpl"], rl, shards=min(C.NCPU, 8))):
+            o.evaluations += 1
+            o.count("reader-fault:" + ("ERR" if a.startswith("ERR") else "ok"))
+            if a.startswith("ERR"):
+                continue
+            why = oracle(c, a)
+            if why and why != "KNOWN" and len(o.violations) < 40:
+                o.violations.append({"case": c, "impl": a[:300], "why": why + " (after a body source that was not ready at one read)"})
     # `Status::of(code)` for every u16 (quick: all three-digit codes + a sample): the model's table lookup (Model/Status.lean over
     # the extracted table) against the real function; the table's well-formedness is Props/C08Status
     if replay is None:
